@@ -252,7 +252,8 @@ def check_effects(ctx, lib, cfgname="default", prefix=""):
             n_unsafe += 1
             ctx.bad(R("no-unsafe"), f"fn:{body.deff}", f"unsafe fn {body.deff}", body.span)
     for imp in lib.impls:
-        if imp.get("unsafe"):
+        if imp.get("unsafe") and not imp.get("auto_derived"):
+            # (`#[derive(Clone, Copy)]` emits `unsafe impl TrivialClone`: compiler-written, span inside the derive)
             n_unsafe += 1
             ctx.bad(R("no-unsafe"), f"impl:{imp.get('trait_ref')}", f"unsafe impl {imp.get('trait_ref')}", imp["span"]["s"])
     ctx.check(n_unsafe == 0, R("no-unsafe"), "inventory", f"no user-written unsafe block, unsafe fn or unsafe impl in the crate ({len(lib.fn_bodies())} bodies, {len(lib.impls)} impls inspected)")
